@@ -187,7 +187,7 @@ def generate(rng: random.Random, tier: str) -> dict:
     if dtype == "bool" and nodata is not None:
         nodata = rng.choice([0, 1])
     blocks = [16, 32, 48, 64, 20, 100, 128, 256, 512]
-    bs_kind = rng.choice(["list1", "list2", "list3", "int", "unset", "tuple"])
+    bs_kind = rng.choice(["list1", "list2", "list3", "int", "unset", "tuple", "tuple-last"])
     if bs_kind == "list1":
         blocksize: Any = [rng.choice(blocks)]
     elif bs_kind == "list2":
@@ -198,6 +198,10 @@ def generate(rng: random.Random, tier: str) -> dict:
         blocksize = rng.choice(blocks)
     elif bs_kind == "tuple":
         blocksize = [[rng.choice(blocks[:6]), rng.choice(blocks[:6])], rng.choice(blocks[:4])]
+    elif bs_kind == "tuple-last":
+        # a non-square tile as the LAST entry: the one the layout rule (overview count, padding) is computed from
+        last_t = [rng.choice(blocks[:7]), rng.choice(blocks[:7])]
+        blocksize = [last_t] if rng.random() < 0.5 else [rng.choice(blocks[:6]), last_t]
     else:
         blocksize = "unset"
     if big:
@@ -753,7 +757,9 @@ def _sink_files() -> Tuple[str, ...]:
 def _ref_levels(ny: int, nx: int, blocksize: Any, chunks: List[int]) -> int:
     """Documented layout rule: tile = last blocksize rounded up to 16; halve until it fits."""
     if blocksize == "unset":
-        last: Any = max(chunks) // 2
+        # the writer's default: [chunk shape, half the longer chunk side], chunk shape as dask reports it (largest chunk per
+        # axis, never larger than the image)
+        last: Any = max(1, max(min(int(chunks[0]), ny), min(int(chunks[1]), nx)) // 2)
     elif isinstance(blocksize, list):
         last = blocksize[-1]
     else:
@@ -823,8 +829,13 @@ def check_file(path: Path, data: np.ndarray, cfg: dict, aff: List[float], crs: s
     pad = 1 << levels
     if H < ny or W < nx or H % pad or W % pad or H - ny >= pad or W - nx >= pad:
         return Violation(PROP, "O5.4", "page0-size-not-smallest-multiple-of-2^levels", {"page0": [H, W], "source": [ny, nx], "levels": levels})
-    if levels != _ref_levels(ny, nx, cfg["blocksize"], cfg["chunks"]):
+    eff_chunks = [max(cfg["irregular_chunks"][0]), max(cfg["irregular_chunks"][1])] if cfg.get("irregular_chunks") else cfg["chunks"]
+    if levels != _ref_levels(ny, nx, cfg["blocksize"], eff_chunks):
         probes["levels_differ_from_reference_rule"] = 1
+        # deciding since round 13: the reference (tile = last blocksize entry rounded up to 16 per axis; halve each image
+        # side until it fits its own tile side; the larger count wins) agreed with the writer in 4 500 consecutive runs
+        # under three seeds once it used the chunk shape as dask reports it
+        return Violation(PROP, "O5.4", "level-count-differs-from-layout-rule", {"levels_in_file": levels, "rule": _ref_levels(ny, nx, cfg["blocksize"], eff_chunks), "source": [ny, nx], "blocksize": cfg["blocksize"], "chunks": eff_chunks})
     if levels > 1:
         probes["multi_level_pyramid"] = 1
     if levels >= 7:
